@@ -3,7 +3,7 @@
 // one record per call.  Same line protocol and answer format as ocaml/concat_driver.ml,
 // whose driver loop is the extracted coq/model/ConcatRun.v.
 //
-//   RUN <N|F> <new|wK> <-|all|i,j,..> <cap,cap,..> <fuel> <task>...   task = F | C<hex>|C- | X
+//   RUN <N|F> <new|wK> <-|all|i,j,..> <[p:]cap,cap,..> <fuel> <task>...   task = F | C<hex>|C- | X
 //     -> final=<rc|PANIC|LOOP> ncalls=<n> out=<hex|-> trace=<rec>;<rec>.. [msg=<panic text>]
 //        rec = op,rc|P,inlen,in0,in1,cap,off0,off1,bufhash,statehex
 //   ENC <quality> <lgwin> <flags:-|a|c|m|l..> <hex|->   -> OK <hex> | ERR | PANIC(..)
@@ -165,7 +165,9 @@ fn run(t: &[&str]) -> String {
     let init = t[2];
     let rall = t[3] == "all";
     let rs: Vec<usize> = if rall { Vec::new() } else { parse_list(t[3]) };
-    let caps = parse_list(t[4]);
+    // "p:" = every call gets a fresh output buffer of the next size (drained after each call)
+    let percall = t[4].starts_with("p:");
+    let caps = parse_list(if percall { &t[4][2..] } else { t[4] });
     let fuel: usize = t[5].parse().unwrap();
     let tasks: Vec<&str> = t[6..].to_vec();
     let nth_cap = |k: usize| if caps.is_empty() { 0 } else { caps[k % caps.len()] };
@@ -282,6 +284,12 @@ fn run(t: &[&str]) -> String {
                     BroCatliResult::NeedsMoreInput if !is_finish => {
                         ti += 1;
                         in_off = 0;
+                        if percall {
+                            emitted.extend_from_slice(&buf[..off.min(buf.len())]);
+                            capidx += 1;
+                            buf = fresh_buf(nth_cap(capidx));
+                            off = 0;
+                        }
                     }
                     other => {
                         fin = format!("{}", rc_num(other));
@@ -293,6 +301,68 @@ fn run(t: &[&str]) -> String {
     }
     emitted.extend_from_slice(&buf[..off.min(buf.len())]);
     finalize(fin, ncalls, &emitted, &trace, &msg)
+}
+
+fn chunks_of(m: &[u8], sizes: &[usize]) -> Vec<Vec<u8>> {
+    let mut out = Vec::new();
+    let mut pos = 0usize;
+    for s in sizes {
+        if pos >= m.len() {
+            break;
+        }
+        let s = (*s).max(1);
+        let e = (pos + s).min(m.len());
+        out.push(m[pos..e].to_vec());
+        pos = e;
+    }
+    if pos < m.len() {
+        out.push(m[pos..].to_vec());
+    }
+    out
+}
+
+// SWEEP <api> <init> <restore> <caps> <b0> <slices|-> <cont,cont,..> <pre tasks joined by +|->
+fn sweep(t: &[&str]) -> String {
+    let (api, init, restore, caps) = (t[1], t[2], t[3], t[4]);
+    let b0: u8 = t[5].parse().unwrap();
+    let slices = parse_list(t[6]);
+    let conts: Vec<Vec<u8>> = t[7].split(',').map(|c| unhex(c)).collect();
+    let pre: Vec<String> = if t[8] == "-" { Vec::new() } else { t[8].split('+').map(|x| x.to_string()).collect() };
+    let pre_total: usize = pre.iter().map(|x| if x.starts_with('C') && x != "C-" { (x.len() - 1) / 2 } else { 0 }).sum();
+    let ncaps = parse_list(if caps.starts_with("p:") { &caps[2..] } else { caps }).len();
+    let mut h = 0u64;
+    let mut n = 0usize;
+    let mut bad: Vec<String> = Vec::new();
+    for b1 in 0..=255u8 {
+        for cont in &conts {
+            let mut m = vec![b0, b1];
+            m.extend_from_slice(cont);
+            let cs = if slices.is_empty() { vec![m.clone()] } else { chunks_of(&m, &slices) };
+            let mut tasks: Vec<String> = pre.clone();
+            tasks.push("F".into());
+            for c in cs {
+                tasks.push(format!("C{}", hex(&c)));
+            }
+            tasks.push("X".into());
+            let fuel = (ncaps + 2) * (3 * (pre_total + m.len()) + 16 * tasks.len() + 64);
+            let fuel_s = fuel.to_string();
+            let mut req: Vec<&str> = vec!["RUN", api, init, restore, caps, &fuel_s];
+            for x in &tasks {
+                req.push(x);
+            }
+            let ans = run(&req);
+            let canon = match ans.find(" msg=") {
+                Some(i) => &ans[..i],
+                None => &ans[..],
+            };
+            h = hash_str(h, canon);
+            if canon.starts_with("final=PANIC") || canon.starts_with("final=LOOP") {
+                bad.push(n.to_string());
+            }
+            n += 1;
+        }
+    }
+    format!("n={} hash={} bad={}", n, h, if bad.is_empty() { "-".to_string() } else { bad.join(",") })
 }
 
 fn enc(t: &[&str]) -> String {
@@ -398,6 +468,7 @@ fn main() {
     quiet_panics();
     serve(|t| match t[0] {
         "RUN" => run(t),
+        "SWEEP" => sweep(t),
         "ENC" => enc(t),
         "DEC" => dec(t),
         "DECG" => decg(t),
